@@ -47,6 +47,11 @@ func init() {
 		json.Unmarshal(raw, &cs)
 		return c14After([]string{"%5d|", "%-12.3f|", "%+x|", "%#v|", "%08.2f|", "%*d|", "% d|", "%.7s|"}[cs.First], cs.D)
 	}
+	replayers["C14/large-numbers"] = func(c *Ctx, raw json.RawMessage) string {
+		var cs struct{ F string }
+		json.Unmarshal(raw, &cs)
+		return c14BigNumber(cs.F)
+	}
 	replayers["C14/after-kind"] = func(c *Ctx, raw json.RawMessage) string {
 		var cs struct {
 			Operand int
@@ -380,6 +385,31 @@ func descVal(v interface{}) (s string) {
 	return fmt.Sprintf("%.40q", fmt.Sprintf("%v", v))
 }
 
+// c14BigNumber: one format string with a large literal width/precision; recorders under fmt and under redact.
+func c14BigNumber(f string) string {
+	var ref, a, b fstate
+	fmt.Sprintf(f, recFormatter{&ref})
+	recoverTo(func() { redact.Sprintf(f, recFormatter{&a}) })
+	recoverTo(func() { redact.Sprintf(f, recSafeFormatter{&b}) })
+	for _, g := range []struct {
+		name string
+		st   *fstate
+	}{{"Formatter", &a}, {"SafeFormatter", &b}} {
+		if g.st.Called != ref.Called || (ref.Called && (g.st.key() != ref.key() || g.st.Fmt != ref.Fmt)) {
+			return fmt.Sprintf("format %q: a %s under redact sees state %s (MakeFormat=%q); a Formatter under fmt sees %s (MakeFormat=%q)", f, g.name, g.st.key(), g.st.Fmt, ref.key(), ref.Fmt)
+		}
+	}
+	if ref.Called {
+		// MakeFormat reproduces the directive: formatting the recorder again with what it returned shows the same state
+		var again fstate
+		fmt.Sprintf(ref.Fmt, recFormatter{&again})
+		if again.key() != ref.key() {
+			return fmt.Sprintf("format %q: MakeFormat returns %q, under which a Formatter sees %s instead of %s", f, ref.Fmt, again.key(), ref.key())
+		}
+	}
+	return ""
+}
+
 // c14NestedPrint: a SafeFormat method reached under the directive d hands a recorder to the SafePrinter it was
 // given - with Print (one operand, several operands) and with Printf under an inner directive. What the recorder
 // sees is the bare %v for Print and the INNER directive for Printf; the outer directive does not leak in.
@@ -567,6 +597,22 @@ func checkC14(c *Ctx) {
 			if pan {
 				w.Fail("panic", map[string]interface{}{"D": d, "V": vi}, fmt.Sprint("panic: ", pv))
 			}
+		}
+		w.Seen(uint64(i))
+	})
+	// literal widths and precisions up to the largest the format parser accepts (10000009; a star operand stops at
+	// 10^6): the recorder prints nothing, so no padding is ever produced
+	bigNums := []int{65535, 65536, 999999, 1000000, 1000001, 1234567, 9999999, 10000000, 10000009, 10000010}
+	var bigFormats []string
+	for _, n := range bigNums {
+		for _, v := range "vdsfx" {
+			bigFormats = append(bigFormats, fmt.Sprintf("%%%d%c", n, v), fmt.Sprintf("%%.%d%c", n, v), fmt.Sprintf("%%-%d.%d%c", n, n, v), fmt.Sprintf("%%12.%d%c", n, v), fmt.Sprintf("%%+0%d.3%c", n, v))
+		}
+	}
+	c.Section("C14/large-numbers", map[string]interface{}{"numbers": bigNums, "formats": len(bigFormats), "checked": "the state and the MakeFormat result a Formatter/SafeFormatter sees under redact's printer equal those under fmt's"}, len(bigFormats), func(i int, w *Worker) {
+		w.Eval()
+		if dt := c14BigNumber(bigFormats[i]); dt != "" {
+			w.Fail("large-number", map[string]interface{}{"F": bigFormats[i]}, dt)
 		}
 		w.Seen(uint64(i))
 	})
